@@ -165,6 +165,16 @@ namespace sim
   struct alloc_construct_mixin
   { };
 
+  // construct (p, U&&): the move construction of one element from another
+  template <class U, class... Args>
+  struct is_move_of : std::false_type { };
+  template <class U, class A>
+  struct is_move_of<U, A>
+    : std::integral_constant<bool, std::is_same<U, typename std::decay<A>::type>::value
+                                   && std::is_rvalue_reference<A&&>::value
+                                   && ! std::is_const<typename std::remove_reference<A>::type>::value>
+  { };
+
   template <class T, class Cfg>
   struct alloc_construct_mixin<T, Cfg, true>
   {
@@ -172,6 +182,10 @@ namespace sim
     void
     construct (U *p, Args&&... args)
     {
+      // an allocator's construct may fail on its own account (quota, uses-allocator
+      // construction that allocates) even when U's constructor is noexcept
+      G ().construct_is_move = is_move_of<U, Args...>::value;
+      on_event (EV_ALLOC_CONSTRUCT);
       ++CS ().constructs;
       ::new (static_cast<void *> (p)) U (std::forward<Args> (args)...);
     }
